@@ -6,7 +6,8 @@
     macros expand to the same builder calls is observed on generated crates (checks/C02.py), not proved. *)
 From Coq Require Import List NArith Bool Arith.
 Import ListNotations.
-From LI Require Import Base.StrOps Parser.Parse Parser.Reduce Codegen.Target Codegen.TargetProofs.
+From LI Require Import Base.StrOps Parser.Parse Parser.Reduce Parser.Merge Codegen.Target Codegen.TargetProofs
+  Codegen.LocaleMatch Codegen.LocaleMatchProofs.
 
 (** the text of the view back-end = the string back-end = the display back-end, for every value and every
     environment of arguments *)
@@ -47,6 +48,42 @@ Theorem C02_arm_select : forall values i v,
                /\ Forall (fun av => (snd av < fst av)%nat) path
                /\ display_arm values i = Some (gen_string v).
 Proof. exact into_view_arm_value. Qed.
+
+(** defaulted locales: the view back-end and the string / display back-end each emit their own per-locale `match`
+    with or-patterns taken from DefaultedLocales::compute.  For every mapping [d] built while merging (a locale is
+    in it exactly when it does not define the key) and every locale [l] of the configuration, both select the
+    generated code of the value of ONE locale, [effective d .. l]: [l] itself when it defines the key, else the
+    locale compute groups it under ([default_of d l]) - whatever the order of the arms *)
+Theorem C02_defaulted_agree : forall (d : dl) (defs : list (N * pv)),
+  NoDup (map fst defs) -> map_get (dl_map d) (dl_default d) = None ->
+  (forall t, In t (map fst defs) -> map_get (dl_map d) t = None) ->
+  forall l v,
+  (In l (map fst defs) \/ In l (map fst (dl_map d))) ->
+  assoc_get defs (effective d (fun l => existsb (N.eqb l) (map fst defs)) l) = Some v ->
+  view_locale_match (compute d) defs l = Some (gen_view v)
+  /\ string_locale_match (compute d) defs l = Some (gen_string v).
+Proof. exact defaulted_agree. Qed.
+
+(** ... and so does the `match` of a literal key's accessor (the const path), whose arms are in forward order *)
+Theorem C02_defaulted_literal : forall (d : dl) (defs : list (N * lit)),
+  NoDup (map fst defs) -> map_get (dl_map d) (dl_default d) = None ->
+  (forall t, In t (map fst defs) -> map_get (dl_map d) t = None) ->
+  forall l v,
+  (In l (map fst defs) \/ In l (map fst (dl_map d))) ->
+  assoc_get defs (effective d (fun l => existsb (N.eqb l) (map fst defs)) l) = Some v ->
+  literal_locale_match (compute d) defs l = Some v.
+Proof. exact defaulted_literal. Qed.
+
+(** that one locale is the first locale of the `inherits` walk that defines the key, else the default *)
+Theorem C02_effective_is_walk : forall d (inh : loc -> option loc) (present : loc -> bool) (others : list loc) F l,
+  (forall x, In x others ->
+     map_get (dl_map d) x = if present x then @None loc else Some (match inh x with Some y => y | None => dl_default d end)) ->
+  (forall x, ~ In x others -> map_get (dl_map d) x = None) ->
+  ~ In (dl_default d) others -> present (dl_default d) = true ->
+  (forall x y, inh x = Some y -> In x others /\ (y = dl_default d \/ In y others)) ->
+  (S (length (dl_map d)) <= F)%nat -> (l = dl_default d \/ In l others) ->
+  effective d present l = first_defined inh present (dl_default d) F l.
+Proof. exact effective_is_walk. Qed.
 
 (** ranges: the integer `match` of the view back-end, the integer `match` of the string back-end and the two
     float if-chains take the same arm - the first one an alternative of which accepts the count, or the fallback -
